@@ -277,6 +277,7 @@ deriving Repr
 benchmark id) or with exit 3 (`UIError` for an unknown run id) -/
 inductive LoadErr where
   | assertBenchDup | assertBenchId | benchIndex | assertRunId | unknownRunId
+  | mixedDataPoint      -- `UIError`: the open data point holds another invocation (exit 3)
 deriving DecidableEq, Repr
 
 /-- a complete data point seen by the loader: run, invocation, iteration of its `total` line -/
@@ -363,6 +364,85 @@ def runIds {κ β : Type} (c : List (Line κ β)) : List Nat :=
 def benchIds {κ β : Type} (c : List (Line κ β)) : List Nat :=
   c.filterMap (fun l => match l with | .bench id _ => some id | _ => none)
 
+/-! ## The loader at text level
+
+`load` above reads abstract lines.  `loadT` reads what is really on disk: every
+measurement line is rendered (`renderMeas`, with the run's columns `colsOf k`),
+cut at `\n`, `\r\n`, `\r` as text-mode reading does, split at tabs and parsed
+(`parseMeas`); pieces that do not parse are skipped (the tolerated `ValueError`
+/ `IndexError`).  It also follows the *open data point* of `_process_lines` /
+`_parse_data_line`: measurements are collected per run until a `total`; a
+measurement with another invocation number than the open data point's is the
+`UIError` of `DataPoint.add_measurement`; comment lines reset the open data
+point.  On files whose strings contain no separator and whose data points end
+in their `total`, `loadT` and `load` agree (C07 `c07_textLoader_*`). -/
+
+structure TState (κ β : Type) where
+  t : Tables κ β
+  loaded : List (Loaded κ)
+  dp : Option (κ × Option Nat)     -- the run of the open data point and the invocation of its first measurement
+
+section TextLoader
+variable {κ β : Type} [DecidableEq κ] [DecidableEq β]
+variable (colsOf : κ → List (List Char)) (rtK : κ → κ) (rtB : β → β)
+
+def measText (inv it : Nat) (m : Meas) (k : κ) (rid : Nat) : List Char :=
+  renderMeas { inv := inv, it := it, value := m.value.text, unit := m.unit.toList, crit := m.crit.toList,
+               cols := colsOf k, rid := rid }
+
+/-- the invocation of the open data point as far as run `k` is concerned (`previous_run_id is not run_id`
+starts a new, empty data point) -/
+def openFor (k : κ) (d : Option (κ × Option Nat)) : Option Nat :=
+  match d with
+  | some (k0, oi) => if k0 = k then oi else none
+  | none => none
+
+/-- `_parse_data_line` for one parsed piece -/
+def loadPiece (st : TState κ β) (p : ParsedMeas) : Except LoadErr (TState κ β) :=
+  match st.t.idToRun[p.rid]? with
+  | none => .error .unknownRunId
+  | some k' =>
+    match openFor k' st.dp with
+    | some i0 =>
+      if i0 ≠ p.inv then .error .mixedDataPoint
+      else if p.crit = "total".toList then
+        .ok { st with loaded := st.loaded ++ [{ k := k', inv := i0, it := p.it }], dp := some (k', none) }
+      else .ok { st with dp := some (k', some i0) }
+    | none =>
+      if p.crit = "total".toList then
+        .ok { st with loaded := st.loaded ++ [{ k := k', inv := p.inv, it := p.it }], dp := some (k', none) }
+      else .ok { st with dp := some (k', some p.inv) }
+
+def loadPieces (st : TState κ β) : List (Option ParsedMeas) → Except LoadErr (TState κ β)
+  | [] => .ok st
+  | none :: ps => loadPieces st ps
+  | some p :: ps => match loadPiece st p with
+    | .ok st' => loadPieces st' ps
+    | .error e => .error e
+
+def loadLineT (st : TState κ β) (l : Line κ β) : Except LoadErr (TState κ β) :=
+  match l with
+  | .header => .ok st
+  | .meas inv it m k rid =>
+    loadPieces st ((splitLines (measText colsOf inv it m k rid ++ ['\n'])).map parseMeas)
+  | l =>      -- a comment line: tables as in `loadLine`, and the open data point is dropped
+    match loadLine rtK rtB (st.t, st.loaded) l with
+    | .ok r => .ok { t := r.1, loaded := r.2, dp := none }
+    | .error e => .error e
+
+def loadFromT (st : TState κ β) : List (Line κ β) → Except LoadErr (TState κ β)
+  | [] => .ok st
+  | l :: ls => match loadLineT colsOf rtK rtB st l with
+    | .ok st' => loadFromT st' ls
+    | .error e => .error e
+
+def loadT (c : List (Line κ β)) : Except LoadErr (Tables κ β × List (Loaded κ)) :=
+  match loadFromT colsOf rtK rtB { t := emptyTables, loaded := [], dp := none } c with
+  | .ok st => .ok (st.t, st.loaded)
+  | .error e => .error e
+
+end TextLoader
+
 /-! ## Vocabulary of the property statements -/
 
 section Spec
@@ -392,6 +472,25 @@ inductive Reach : List (Line κ β) → Prop
   | session (c : List (Line κ β)) (T : Tables κ β) (ls : List (Loaded κ)) (ops : List (κ × DP)) :
       Reach c → load (fun x => x) (fun x => x) c = .ok (T, ls) →
       Reach (writeOps benchOf ops (FP.ofTables c T)).content
+
+/-- a measurement written by `"%f"` whose unit and criterion contain no tab, CR or LF -/
+def MeasOk (m : Meas) : Prop :=
+  (∃ q, m.value = .flt q) ∧ sepFree m.unit.toList = true ∧ sepFree m.crit.toList = true
+
+/-- a data point as every adapter builds it (C12) for a run whose columns are separator-free:
+separator-free strings, exactly one `total`, and that last -/
+structure DPOk (colsOf : κ → List (List Char)) (k : κ) (dp : DP) : Prop where
+  cols : ∀ c ∈ colsOf k, sepFree c = true
+  ms : ∀ m ∈ dp.ms, MeasOk m
+  shape : ∃ init tot, dp.ms = init ++ [tot] ∧ tot.crit = "total" ∧ ∀ m ∈ init, m.crit ≠ "total"
+
+/-- `Reach` restricted to sessions that persist only such data points -/
+inductive ReachOk (colsOf : κ → List (List Char)) : List (Line κ β) → Prop
+  | empty : ReachOk colsOf []
+  | session (c : List (Line κ β)) (T : Tables κ β) (ls : List (Loaded κ)) (ops : List (κ × DP)) :
+      ReachOk colsOf c → load (fun x => x) (fun x => x) c = .ok (T, ls) →
+      (∀ op ∈ ops, DPOk colsOf op.1 op.2) →
+      ReachOk colsOf (writeOps benchOf ops (FP.ofTables c T)).content
 
 end Spec
 
